@@ -315,7 +315,9 @@ func (e *Env) index(x *EIndex) Val {
 			}
 			comp, _ := r.elemComp(et)
 			m := r.heapGet(e.state(), comp)
-			return termVal(Select(Select(m, slBase(v.T)), Add(slOff(v.T), i)), et)
+			cell := Select(Select(m, slBase(v.T)), Add(slOff(v.T), i))
+			e.cellRange(cell, et)
+			return termVal(cell, et)
 		case v.T.Sort == SStr:
 			return termVal(app(SInt, "str.at_", v.T, i), types.Typ[types.Uint8])
 		case strings.HasPrefix(v.T.Sort, "(Array "):
@@ -961,4 +963,14 @@ func (r *Run) liftForPattern(s string, decl []string) (string, bool) {
 		}
 	}
 	return s, true
+}
+
+// cellRange: a memory cell of a machine integer type holds a value of that type - asserted for ground cells that a
+// contract expression reads (the code's own loads get the same fact when they are executed).
+func (e *Env) cellRange(cell Term, et types.Type) {
+	if et == nil || !isInteger(et) || strings.Contains(cell.S, "q.") {
+		return
+	}
+	lo, hi := intRange(et)
+	e.r.ctx.Assert(And(Le(mkBig(lo), cell), Le(cell, mkBig(hi))))
 }
